@@ -174,18 +174,23 @@ PROPS = {
              "must_cover": ["three-or-more-rated", "few-rated"], "max_witness_replays": 4},
             dict(GRADEGLUE, id="grade-glue-order", replay_mode="order", native_repeat=24, max_witness_replays=3),
             MULTIFETCH,
+            # two independent replays of the scheduled-issuance scenarios (separate databases and node
+            # objects, every time.Now() a fresh symbolic instant): no wall-clock value may reach the ledger
+            {"id": "syncloop-replays", "func": "VerifSyncLoop", "pkg": NODE, "pkgname": "node", "load": ["./node"],
+             "params": {"quick": {"mode": 0}, "thorough": {"mode": 0}},
+             "must_cover": ["completed", "dev-payout-at-2nd-block", "v204-mint"], "max_witness_replays": 3},
         ],
         "wall": {"quick": 400, "thorough": 3000},
         "bounds": {"quick": "(process history) the averaging cache of a daemon that lived through the chain vs one restarted before any rated block, as C09; order oracle = any permutation of one map iteration or one unstable sort per run (deviation budget 1); supply set with <=2 requests; SnapshotPayouts with 2 eligible stakers (1 asset, concrete rates, symbolic balances incl. exact ties)",
                    "thorough": "3 requests / 3 stakers"},
-        "assumptions": ["map iteration order and unstable-sort order are the only process-dependent inputs modelled; goroutine scheduling in multiFetch and tie handling inside the grader dependency are outside (DESIGN §9)",
+        "assumptions": ["map iteration order, unstable-sort order and the wall clock (time.Now: a fresh symbolic instant per call) are the process-dependent inputs modelled; goroutine scheduling in multiFetch and tie handling inside the grader dependency are outside (DESIGN §9)",
                         "SQLite row order of SELECT without ORDER BY is a function of table content (row ids)"],
     },
     "C14": {
         "asserts": ["C14.", "uncaught-panic"],
         "harnesses": [
             {"id": "snapshot-join", "func": "VerifSnapshot", "pkg": NODE, "pkgname": "node", "load": ["./node"],
-             "params": {"quick": {"both": 2, "extras": 1, "assets": 1}, "thorough": {"both": 2, "extras": 1, "assets": 2}},
+             "params": {"quick": {"both": 2, "extras": 1, "assets": 1, "edge": 1}, "thorough": {"both": 2, "extras": 1, "assets": 2, "edge": 1}},
              "must_cover": ["paid", "capped", "uncapped"], "max_witness_replays": 4},
             {"id": "snapshot-alloc", "func": "VerifSnapshot", "pkg": NODE, "pkgname": "node", "load": ["./node"],
              "params": {"quick": {"both": 3, "extras": 0, "assets": 1, "positive": 1, "fixrates": 1}, "thorough": {"both": 3, "extras": 0, "assets": 1}},
@@ -196,7 +201,7 @@ PROPS = {
             SYNCBLOCK,
         ],
         "wall": {"quick": 400, "thorough": 3000},
-        "bounds": {"quick": "SnapshotPayouts at the first snapshot heights >= 2.0 and >= 2.0.2: (a) 2 addresses in both snapshots + 1 only-new + 1 only-old, 1 non-PEG asset (pEUR), symbolic balances in both snapshots, symbolic rates incl. 0; (b) 3 eligible stakers, concrete rates; (c) 1 staker holding 2 non-PEG assets (pEUR, pXBT) with independent symbolic rates incl. 0 and a symbolic pUSD rate",
+        "bounds": {"quick": "SnapshotPayouts at the first snapshot heights >= 2.0 and >= 2.0.2: (a) 2 addresses in both snapshots + 1 only-new + 1 only-old, 1 non-PEG asset (pEUR or the last ticker of the enumeration, pNGN), symbolic balances in both snapshots, symbolic rates incl. 0; (b) 3 eligible stakers, concrete rates; (c) 1 staker holding 2 non-PEG assets (pEUR, pXBT) with independent symbolic rates incl. 0 and a symbolic pUSD rate",
                    "thorough": "(a) with 2 assets, (b) with symbolic rates"},
         "assumptions": ["USD value of one holding fits int64 and stakes fit uint64 (DESIGN §8 preconditions)", "balances < 2^62",
                         "trigger condition (height % 144, snapshot taken before balance changes) is SyncBlock glue: see C15/C02 glue harness"],
@@ -336,12 +341,16 @@ PROPS = {
         "asserts": ["C13.", "uncaught-panic"],
         "harnesses": [
             {"id": "admit", "func": "VerifAdmit", "pkg": NODE, "pkgname": "node", "load": ["./node"],
-             "params": {"quick": {"matrix": 0}, "thorough": {"matrix": 1}},
+             "params": {"quick": {"matrix": 0}, "thorough": {"matrix": 1, "positions": 1}},
+             "maxpaths": {"thorough": 800000},
              "must_cover": ["must-reject", "must-drop", "must-execute"], "max_witness_replays": 9},
+            {"id": "admit-cross", "func": "VerifAdmit", "pkg": NODE, "pkgname": "node", "load": ["./node"], "thorough_only": True,
+             "params": {"quick": {"matrix": 0}, "thorough": {"matrix": 0}},
+             "must_cover": ["must-reject", "must-drop", "must-execute"], "max_witness_replays": 3},
         ] + HOLDING_HARNESSES[:1],
         "wall": {"quick": 300, "thorough": 3000},
         "bounds": {"quick": "one conversion; (3 sources x all 62 destinations) + (all 62 sources x 3 destinations); height uint32 from the tx activation on, amount/balance < 2^62, rates/averages uint64 incl. 0",
-                   "thorough": "full 62x62 asset matrix"},
+                   "thorough": "full 62x62 asset matrix for a conversion that is the only transaction of its batch (the full matrix with a preceding transfer in the batch did not finish within the path cap: reduced, stated; the preceding-transfer position is explored on the quick tier's 3x62 + 62x3 cross, which the thorough tier runs as well)"},
         "assumptions": ["single-transaction batch through applyTransactionBatch (the PEG-destination rule from 2.0 on lives in the holding pass: ValidatePegTx, covered by the holding harness)",
                         "reject-code priority as documented in node/pegnet/errors.go", "converted output < 2^62 (INV I2)"],
     },
